@@ -123,6 +123,9 @@ def _case(draw):
     else:
         pool = draw(_edit_family(n))
         kind = "edits"
+    for _ in range(draw(st.sampled_from([0, 0, 1, 2]))):
+        # a sampled tree in which every data point is an outlier contributes no clade but still counts as a tree
+        pool.append(dict(blocks=[], parent=[], outliers=list(range(n))))
     # every pool tree appears at least once; chains split the list
     n_chains = draw(st.integers(1, 3))
     chain_nums = [0] + draw(st.lists(st.integers(1, 9), min_size=n_chains - 1, max_size=n_chains - 1, unique=True))
@@ -237,4 +240,6 @@ def _evaluate(case, td):
         classes.append("threshold-nudged")
     if want_out:
         classes.append("uncovered-points")
+    if any(mt.k == 0 for _, _, mt, _ in built.flat):
+        classes.append("trace-holds-clone-less-tree")
     return Outcome(nontrivial=nested, classes=tuple(classes), info=dict(n=case["ds"]["n"], trees=len(built.flat), thr=thr, weighted=case["weighted"], F=sorted(sorted(c) for c in F)), weight=len(built.flat))
